@@ -533,8 +533,10 @@ def workload(tier, seed):
     gm = graph_masks(tier, seed)
     for cls in ("CNF", "OPB"):
         for n, masks in gm:
-            for as_nx in (False, True, "duck"):
-                if as_nx and n > (4 if as_nx == "duck" else 3):
+            for as_nx in (False, True, "duck", "nx-mixed"):
+                if as_nx and n > (4 if as_nx in ("duck", "nx-mixed") else 3):
+                    continue
+                if as_nx == "nx-mixed" and n < 3:
                     continue
                 if n <= 4 or not quick:
                     for ch in chunks(masks, 4 if n >= 4 else 8):
